@@ -164,6 +164,48 @@ func TestVerifGoldilocks(t *testing.T) {
 	for i := 0; i < lib.Scale(24, 1500); i++ {
 		addCircl(e.ScalarBaseMult(goldiScalar(randBelow(r, c09ref.Ed448Order))))
 	}
+	// values reached through the group operations from the distinguished
+	// points (identity, the points of order 2 and 4, the generator, a random
+	// point): negated, doubled, added to each other and to their own negative.
+	// Their coordinates pass through representatives that key generation
+	// never produces (p - 0, sums that land on 0 or p); what the library then
+	// serialises must be accepted again like any other value.
+	{
+		f0 := c09ref.Ed448F
+		var bases []*goldilocks.Point
+		bases = append(bases, e.Identity(), e.Generator(), e.ScalarBaseMult(goldiScalar(randBelow(r, c09ref.Ed448Order))))
+		for _, l := range []c09ref.EPt{{X: f0.Zero(), Y: f0.Int(-1)}, {X: f0.One(), Y: f0.Zero()}, {X: f0.Int(-1), Y: f0.Zero()}, {X: f0.Zero(), Y: f0.One()}} {
+			if q, err := goldilocks.FromBytes(c09ref.Ed448Encode(l)); err == nil {
+				bases = append(bases, q)
+			}
+		}
+		nd := 0
+		for _, b := range bases {
+			n := *b
+			n.Neg()
+			d := *b
+			d.Double()
+			z := *b
+			z.Add(&n) // P + (-P)
+			nn := n
+			nn.Neg()
+			for _, q := range []*goldilocks.Point{&n, &d, &z, &nn} {
+				q := *q
+				addCircl(&q)
+				nd++
+			}
+			for _, c := range bases {
+				s := *b
+				s.Add(c)
+				addCircl(&s)
+				sn := s
+				sn.Neg()
+				addCircl(&sn)
+				nd += 2
+			}
+		}
+		lib.CountN("converse:goldilocks:derived-values", nd)
+	}
 	for i := 0; i < lib.Scale(4, 60); i++ {
 		valid = append(valid, c09ref.Ed448Encode(c09ref.Ed448.Mul(randBelow(r, c09ref.Ed448Order), c09ref.Ed448G)))
 	}
